@@ -25,7 +25,9 @@ class Namespace(typing.Generic[T]):
     inner_nsp: list["Namespace"]
 
     loop_stack: list["oneliner.pending_nodes._PendingLoop"]
-    comp_stack: list["oneliner.expr_transform.PendingComp"]
+    comp_stack: list[
+        "oneliner.expr_transform.PendingComp | oneliner.expr_transform.PendingLambda"
+    ]
 
     def __init__(self, symt: T, stack: list["Namespace"]):
         self.loop_stack = []
